@@ -13,6 +13,8 @@ from .dfacts import batch_facts, method_call_facts, notif_facts
 
 
 def run(ck: Check, prog: Program) -> None:
+    from .common import dispatcher_program
+    prog = dispatcher_program(prog)
     roles = dispatchers(prog)
     ck.explain('Dominance and typestate rules over the CFGs (with exception edges) of the per-element chain of both '
                'dispatchers: responses are built only on the not-a-notification edge and carry the request id; the bound '
@@ -49,6 +51,14 @@ def run(ck: Check, prog: Program) -> None:
     ck.functions.add(rf.qualname)
     c06._field_guards(ck, mprog, rf)
     c06._container_guard(ck, mprog, rf)
+    # "a rejected batch (... duplicate ids ...) executes nothing": every id but None takes part in the duplicate check of the
+    # strict BatchRequest constructor that from_json uses
+    addf = prog.func('pjrpc.common.v20.BatchRequest._add_ids')
+    ck.functions.add(addf.qualname)
+    dp = c06.dup_check_problems(prog, addf)
+    ck.ob('DUP-CHECK', 'BatchRequest._add_ids: only None ids are exempt from the duplicate check; a duplicate raises IdentityError', not dp)
+    for line, msg in dp:
+        ck.finding('DUP-CHECK', addf.qualname, msg[:70], addf.module.rel, line, msg)
 
 
 MUTANTS = [
